@@ -3,5 +3,17 @@
 // Contracts for package proxy/providers, checked by /verif (ssovc). Comment-only file.
 package providers
 
-//@ interface Provider.ValidateGroup(email string, allowedGroups []string, accessToken string) ([]string, bool, error)
+//@ interface Provider.Data() *ProviderData
 //@   modifies nothing
+//@   ensures result != nil && result == providerData(this.tag, this.pay)
+
+//@ interface Provider.ValidateGroup(email string, allowedGroups []string, accessToken string) ([]string, bool, error)
+//@   modifies clock
+
+// The frame is the C04 clause "no refresh or revalidation moves the lifetime bound": LifetimeDeadline
+// (like Email, User, ProviderSlug, AuthorizedUpstream) is not in the modifies set.
+//@ interface Provider.RefreshSession(s *sessions.SessionState, allowedGroups []string) (bool, error)
+//@   modifies s.AccessToken, s.RefreshDeadline, s.Groups, s.GracePeriodStart, clock
+
+//@ interface Provider.ValidateSessionState(s *sessions.SessionState, allowedGroups []string) bool
+//@   modifies s.ValidDeadline, s.Groups, s.GracePeriodStart, clock
